@@ -287,6 +287,25 @@ def custom_sections(F):
         r.ob(not bad, {"fn": fn["path"], "order_changing_calls": bad})
         if bad:
             r.violate("%s | reorders" % fn["path"], F.loc(fn), "%s changes the relative order of custom sections (%s)" % (name, bad))
+    # add(): appends on every path (never replaces an existing entry)
+    addf = F.one_fn(name="add", self_adt="CustomSections")
+    pushes = [c for c in walk(addf["body"]) if c.get("k") == "MethodCall" and c["method"] == "push" and (place_path(c["recv"]) or "").endswith(".custom_sections")]
+    oka = len(pushes) == 1 and every_iteration(addf["body"], pushes[0])[0]
+    repl = [x for x in walk(addf["body"]) if x.get("k") == "Assign" and "custom_sections" in (place_path(x["lhs"]) or "")]
+    r.ob(oka and not repl, {"add appends on every path": oka, "replaces_in_place": bool(repl)})
+    if not (oka and not repl):
+        r.violate("%s | add is not an append" % addf["path"], F.loc(addf), "CustomSections::add does not append the new section on every path (%s): an existing section can be overwritten / the new one dropped" % ("assigns an existing slot" if repl else (every_iteration(addf["body"], pushes[0])[1] if pushes else "no push")))
+    # any state kept next to the list (caches, indexes) must be refreshed by every mutator
+    extra = [f_["name"] for v in F.adt(CSADT)["variants"] for f_ in v["fields"] if f_["name"] != "custom_sections"]
+    for fld in extra:
+        for mname in ("add", "delete"):
+            mf = F.one_fn(name=mname, self_adt="CustomSections")
+            touches = any((x.get("k") in ("Assign", "AssignOp") and ("." + fld) in (place_path(x["lhs"]) or "")) or
+                          (x.get("k") == "MethodCall" and ("." + fld) in (place_path(x["recv"]) or "") and x["method"] in ("clear", "insert", "remove", "take", "push", "retain", "replace", "get_mut", "borrow_mut", "set"))
+                          for x in walk(mf["body"]))
+            r.ob(touches, {"derived state": fld, "maintained by": mname, "ok": touches})
+            if not touches:
+                r.violate("%s | stale %s" % (mf["path"], fld), F.loc(mf), "CustomSections::%s changes the section list but not the derived state `%s`: lookups answered from it (get_id) go stale" % (mname, fld))
     # new(): tuple .0 → name, .1 → data
     new = F.one_fn(name="new", self_adt="CustomSections")
     okn = False
